@@ -492,7 +492,7 @@ type Stream struct {
 	msgAssembler []byte                       // collects and adds incoming packets until the entire message is received (EOF signal)
 	inbox        chan *lib.MessageAndMetadata // the channel where fully received messages are held for other parts of the app to read
 	mu           sync.Mutex                   // mutex to prevent race conditions when sending packets (all packets of the same message should be one right after the other)
-	closed       bool                         // flag to identify if stream is closed
+	closed       atomic.Bool                  // flag to identify if stream is closed
 	logger       lib.LoggerI
 }
 
@@ -512,7 +512,7 @@ func (s *Stream) queueSends(packets []*Packet, sendStart time.Time, metrics *lib
 
 // queueSend() schedules the packet to be sent
 func (s *Stream) queueSend(p *Packet, sendStart time.Time, metrics *lib.Metrics) bool {
-	if s.closed {
+	if s.closed.Load() {
 		return false
 	}
 	queueStart := time.Now()
